@@ -31,7 +31,7 @@ type subscriptionEntry struct {
 func (g *Gateway) newSubscriptionEntry(id string, ctx *planner.PlanningContext) (*subscriptionEntry, error) {
 	subEntry := &subscriptionEntry{
 		id:             id,
-		closeCh:        make(chan struct{}),
+		closeCh:        make(chan struct{}, 1),
 		queryerCloseCh: make(chan struct{}),
 		respCh:         make(chan *requests.Response),
 	}
@@ -126,13 +126,17 @@ func (se *subscriptionEntry) prepareResponse(resp *requests.Response) *requests.
 }
 
 func (se *subscriptionEntry) Close() {
-	se.TryLock()
-	isClosed := se.isClosed
-	se.Unlock()
-	if isClosed {
+	se.Lock()
+	defer se.Unlock()
+	if se.isClosed {
 		return
 	}
-	se.closeCh <- struct{}{}
+	// closeCh is buffered and never closed: asking a listener that is already
+	// on its way out to stop must neither block nor panic
+	select {
+	case se.closeCh <- struct{}{}:
+	default:
+	}
 }
 
 func (se *subscriptionEntry) Listen(conn net.Conn) {
@@ -141,7 +145,6 @@ func (se *subscriptionEntry) Listen(conn net.Conn) {
 		se.Lock()
 		defer se.Unlock()
 		close(se.queryerCloseCh)
-		close(se.closeCh)
 		close(se.respCh)
 		se.isClosed = true
 	}()
